@@ -868,6 +868,26 @@ pub fn repl_sessions(sh: &mut Shard, class: &str, only: Option<&[String]>, compa
             }
         }
     }
+    // an input that can not be read at all (standard input is a directory): the prompt says so and ends
+    if only.is_none() && sh.mine() {
+        sh.begin(&|| "interactive prompt: standard input is a directory".to_string());
+        sh.count("family:repl-sessions");
+        for (bname, exe) in [("unoptimised", &dev), ("release", &rel)] {
+            if let Ok(dir) = std::fs::File::open("/") {
+                let out = Command::new("timeout").args(["-s", "KILL", "20"]).arg(exe).stdin(Stdio::from(dir)).stdout(Stdio::piped()).stderr(Stdio::piped()).output();
+                if let Ok(out) = out {
+                    use std::os::unix::process::ExitStatusExt;
+                    if out.status.code() != Some(0) || out.status.signal().is_some() {
+                        sh.violation(
+                            class,
+                            json!({"repl_stdin": "a directory", "build": bname}),
+                            format!("the {bname} prompt did not end by itself when its input could not be read: {:?} after {} bytes of output", out.status, out.stdout.len()),
+                        );
+                    }
+                }
+            }
+        }
+    }
     if let Some(o) = only {
         sessions = vec![o.to_vec()];
     }
